@@ -146,12 +146,12 @@ func ruleC01(c *Ctx) {
 	}
 	sgf := c.Func(pVal, "(*GasState).setGas")
 	if sgf != nil {
-		c.RequireGuard("guard", c.ScopeFunc(sgf), "negative BTM parity rejected", isParam("BTMValue"))
+		c.RequireGuard("guard", c.ScopeFunc(sgf), "negative BTM parity rejected", paramN(1))
 		okst := false
 		for _, w := range c.writersOf("protocol/validation.GasState", "BTMValue", nil) {
 			if w.Fn == sgf {
 				have := factsAt(w.Store)
-				okst = have["param:BTMValue >= 0"] || have["0 <= param:BTMValue"]
+				okst = have["param#1 >= 0"] || have["0 <= param#1"]
 			}
 		}
 		c.Require("facts", fname(sgf)+": uint64(BTMValue) stored only when BTMValue ≥ 0", okst, "store to GasState.BTMValue")
@@ -269,7 +269,27 @@ func ruleC02(c *Ctx) {
 				if mentions(a0, readsField("protocol/bc.Tx", "ID"), 4, nil) {
 					hasTx = true
 				}
-				if mentions(a0, func(v ssa.Value) bool { fv, ok := v.(*ssa.FreeVar); return ok && fv.Name() == "entryID" }, 4, nil) {
+				// the captured cell that holds bc.EntryID(entry): resolve the free variable to its binding
+				if mentions(a0, func(v ssa.Value) bool {
+					fv, ok := v.(*ssa.FreeVar)
+					if !ok {
+						return false
+					}
+					for _, b := range nv.Blocks {
+						for _, in := range b.Instrs {
+							mc, ok := in.(*ssa.MakeClosure)
+							if !ok || mc.Fn != ssa.Value(sh) {
+								continue
+							}
+							for i, bind := range mc.Bindings {
+								if i < len(sh.FreeVars) && sh.FreeVars[i] == fv && mentions(bind, callsKey("protocol/bc.EntryID"), 4, nil) {
+									return true
+								}
+							}
+						}
+					}
+					return false
+				}, 4, nil) {
 					hasEntry = true
 				}
 			}
@@ -286,7 +306,7 @@ func ruleC02(c *Ctx) {
 			// entryID is EntryID(entry) of the entry being validated
 			okE := false
 			for _, s := range callsTo(nv, false, "protocol/bc.EntryID") {
-				if isParam("entry")(s.Common().Args[0]) || mentions(s.Common().Args[0], func(v ssa.Value) bool { p, ok := v.(*ssa.Parameter); return ok && p == nv.Params[1] }, 2, nil) {
+				if paramN(1)(s.Common().Args[0]) || mentions(s.Common().Args[0], func(v ssa.Value) bool { p, ok := v.(*ssa.Parameter); return ok && p == nv.Params[1] }, 2, nil) {
 					okE = true
 				}
 			}
